@@ -227,6 +227,12 @@ DRV_OP(OpRefsStep, "refs.step") {
     }
   } else if (kind == "clear") {
     mgr.clear();
+  } else if (kind == "resolve") {
+    // the SAME manager resolves again (its context object may have changed meanwhile)
+    const auto text = drv::GetBytes(a, "text");
+    const auto resolved = mgr.Resolve(text);
+    out["resolved"] = drv::PutBytes(resolved);
+    out["output"] = drv::PutBytes(mgr.OutputRefs(resolved));
   } else {
     return json{ {"harness_error", "bad refs.step kind"} };
   }
